@@ -22,26 +22,27 @@ var (
 
 // GenOpts selects the template fragment and table shape.
 type GenOpts struct {
-	Router     string // "curly" | "jsr311" | "common" (fragment both routers document)
-	MaxSvcs    int
-	MaxRoutes  int
-	MaxRootLen int
-	MaxPathLen int
-	VarRoots   bool // allow {v} / {v:re} in root paths
-	Conds      bool
-	Media      bool // Consumes / Produces lists
-	Distinct   bool // (method, template) pairs distinct inside a service; root shapes distinct
-	NoWild     bool
-	NoRegex    bool
-	PlainOnly  bool     // literals and {v} only (C17 / C18 fragment)
-	Styles     bool     // vary how the route path string is written ("a/b", "/a/b/")
-	StarMedia  bool     // allow */* inside Consumes/Produces
-	Nested     bool     // literal roots that nest (/, /a, /a/b)
-	Methods    []string // method pool (nil: all six)
-	OddMethods bool     // now and then a method outside the usual six (extension methods, OPTIONS)
-	Twins      bool     // now and then a second route with the same method and path but other Consumes/Produces
-	MinSvcs    int
-	MinPathLen int // shortest route path (segments)
+	Router      string // "curly" | "jsr311" | "common" (fragment both routers document)
+	MaxSvcs     int
+	MaxRoutes   int
+	MaxRootLen  int
+	MaxPathLen  int
+	VarRoots    bool // allow {v} / {v:re} in root paths
+	Conds       bool
+	Media       bool // Consumes / Produces lists
+	Distinct    bool // (method, template) pairs distinct inside a service; root shapes distinct
+	NoWild      bool
+	NoRegex     bool
+	PlainOnly   bool     // literals and {v} only (C17 / C18 fragment)
+	Styles      bool     // vary how the route path string is written ("a/b", "/a/b/")
+	StarMedia   bool     // allow */* inside Consumes/Produces
+	Nested      bool     // literal roots that nest (/, /a, /a/b)
+	Methods     []string // method pool (nil: all six)
+	OddMethods  bool     // now and then a method outside the usual six (extension methods, OPTIONS)
+	Twins       bool     // now and then a second route with the same method and path but other Consumes/Produces
+	MinSvcs     int
+	NoCurlyOnly bool // no expressions that only CurlyRouter applies token-wise (tables answered by the OPTIONS filter, which uses RouterJSR311's engine)
+	MinPathLen  int  // shortest route path (segments)
 	// LitSkew: pooled paths use one-character literals and mostly literals; their mirror images get few long literals whose
 	// characters add up to the pooled path's literal characters -1, +0 or +1 (near ties of "number of literal characters"
 	// between templates whose numbers of literal segments and of variables differ a lot)
@@ -111,10 +112,14 @@ func (g *genState) seg(root bool, last bool) Seg {
 		s = Seg{Kind: Var, Name: g.name()}
 	case k < 85 && !g.o.NoRegex:
 		s = Seg{Kind: VarRe, Name: g.name(), Re: r.Intn(len(Regexes))}
-	case k < 93 && curly && !root:
+		for Regexes[s.Re].CurlyOnly && (!curly || g.o.NoCurlyOnly) {
+			s.Re = r.Intn(len(Regexes))
+		}
+	case k < 93 && curly && (!root || k < 88):
+		// {v}suffix, in route paths and (less often) in root paths
 		s = Seg{Kind: VarSuf, Name: g.name(), Suf: r.Pick(Suffixes)}
 	case k < 95 && curly && !root:
-		s = Seg{Kind: VarPre, Name: g.name(), Lit: r.Pick([]string{"v", "id-", "x_"}), PreRe: r.Chance(1, 2), Re: r.Intn(len(Regexes))}
+		s = Seg{Kind: VarPre, Name: g.name(), Lit: r.Pick([]string{"v", "id-", "x_"}), PreRe: r.Chance(1, 2), Re: r.Intn(len(Regexes) - 1)}
 	case last && !root && !g.o.NoWild:
 		s = Seg{Kind: Wild, Name: g.name()}
 	default:
@@ -215,6 +220,9 @@ func GenTable(r *core.Rand, o GenOpts) *Table {
 		svc := SvcSpec{ID: i, Root: root}
 		if o.Styles && len(root) > 0 && r.Chance(1, 8) {
 			svc.RootStyle = 1
+		}
+		if o.Styles && len(root) == 0 && r.Chance(1, 3) {
+			svc.RootStyle = 2 // a WebService on "/" that never calls Path
 		}
 		nr := r.Range(1, o.MaxRoutes)
 		// small pool of paths so that routes collide on purpose
@@ -691,7 +699,7 @@ func GenReq(r *core.Rand, t *Table, router string) Req {
 				toks[k] = strings.ToUpper(toks[k])
 			}
 		case "regex-no":
-			if i := idxOf(func(s Seg) bool { return s.Kind == VarRe }); i >= 0 {
+			if i := idxOf(func(s Seg) bool { return s.Kind == VarRe && len(Regexes[s.Re].No) > 0 }); i >= 0 {
 				v := r.Pick(Regexes[full[i].Re].No)
 				if full[i].Verb != "" {
 					v += ":" + full[i].Verb
@@ -699,7 +707,7 @@ func GenReq(r *core.Rand, t *Table, router string) Req {
 				toks[i] = v
 			}
 		case "regex-part":
-			if i := idxOf(func(s Seg) bool { return s.Kind == VarRe }); i >= 0 {
+			if i := idxOf(func(s Seg) bool { return s.Kind == VarRe && len(Regexes[s.Re].Part) > 0 }); i >= 0 {
 				v := r.Pick(Regexes[full[i].Re].Part)
 				if full[i].Verb != "" {
 					v += ":" + full[i].Verb
